@@ -141,6 +141,19 @@ CHECKS = {
             "from the configuration file and is left out; the quick tier reaches the table boundary by pre-filling it through a hook.",
             "TLA+ spec as generator of the frame lattice + liveness oracle, replay through the real receive loop in a crash-isolated child",
             "DESIGN.md §3 C02"),
+    "C20": ("model_checking",
+            "Knock.tla models probe grouping per (source, protocol class), distinct port collection, and the quiet-period report-and-"
+            "remove; UniqueSet.tla the insertion-ordered set with Each-while-removing; TLC checks PortsExactlyDistinctProbed, "
+            "ReportedOncePerBurst, NoDuplicates and EachExact, and requires the four transcribed deviations to violate them; all "
+            "interleaved bursts of <= 3 probes from 3 sources (exhaustive), simulated bursts of 8 and seeded bursts of up to 150 "
+            "probes from up to 4 sources are injected as real SYN / UDP / ICMP frames into one real Canary each (hooks), the real "
+            "5 s quiet timer is waited for twice, and per source the union of reported ports must be exactly the distinct pairs "
+            "probed, each once; every UniqueSet transition and all operation sequences up to length 4 (quick) / 6 (thorough) run on "
+            "the real canary.UniqueSet with the TLC table as oracle.",
+            "Synchronous frame injection through a hook that mirrors the dispatch of the receive loop; one report per protocol "
+            "class or per source both accepted; no timing requirement beyond 'within two quiet periods'.",
+            "TLA+ spec + TLC exhaustive/simulate generation, replay into real Canary instances, transition-coverage replay of UniqueSet",
+            "DESIGN.md §3 C20"),
 }
 
 NOT_YET = "check not built yet in this session (see DESIGN.md §10 for the order of construction)"
